@@ -615,3 +615,40 @@ def f_spell():
 
 
 FAMILIES["spell"] = f_spell
+
+
+# ---------------------------------------------------------------- F-hist (C11)
+def f_hist():
+    """definitions with a small set of command lines (succeeding, failing, help/version, subcommand lines)"""
+    D = []
+
+    def add(label, c, lines):
+        d = with_alpha(c, "hist", label)
+        d["lines"] = [[b(t) if isinstance(t, str) else t for t in line] for line in lines]
+        D.append(d)
+    leaf = cmd("leaf", [arg("l", "l", "ll", action="SetTrue"), arg("lp")])
+    mid = cmd("mid", [arg("m", "m", "mm", action="SetTrue"), arg("req", "r", "req", required=True)], subs=[leaf], aliases=["md"], version=True)
+    other = cmd("other", [arg("o", "o", "oo"), arg("x", long="xray", action="SetTrue")])
+    top = cmd("prog", [arg("g", "g", "gg", glob=True, action="SetTrue"), arg("t", "t", "tt", action="SetTrue"), arg("v", "v", "val", defaults=["d"])],
+              subs=[mid, other], version=True)
+    add("tree", top, [["-t"], ["--zzzzzz"], ["mid", "-r", "1", "leaf", "-l"], ["mid"], ["mid", "--zz"], ["other", "--xra"], ["--help"],
+                      ["mid", "--help"], ["mid", "--version"], ["help", "mid"], ["other", "-o"], ["--tt", "--tt"], ["mid", "-r", "1", "leaf", "--bogus"]])
+    add("flat", cmd("prog", [arg("a", "a", "aa", action="SetTrue"), arg("o", "o", "opt"), arg("p1", required=True)]),
+        [["x"], [], ["-a", "x"], ["--opt"], ["--op", "v", "x"], ["-h"], ["--aa", "--aa", "x"], ["x", "y"]])
+    add("infer", cmd("prog", [arg("v1", long="verbose", action="SetTrue"), arg("o", "o", "output")],
+                     subs=[cmd("test", [arg("t", "t", action="SetTrue")]), cmd("temp")], infer_long_args=True, infer_subcommands=True),
+        [["--verb"], ["--v"], ["te"], ["test", "-t"], ["tes", "-x"], ["t"], ["--out", "f", "temp"]])
+    add("flag-subs", cmd("pac", [arg("v", "v", action="Count")],
+                         subs=[cmd("sync", [arg("u", "u", action="SetTrue"), arg("pk", num=(0, None))], short_flag="S", long_flag="sync"),
+                               cmd("query", [arg("i", "i", action="SetTrue")], short_flag="Q")]),
+        [["-Su"], ["-S", "pkg"], ["--sync", "-u"], ["-Sx"], ["-Qi"], ["-vv", "-Q"], ["-Z"]])
+    add("required-else-help", cmd("prog", [arg("f", "f", action="SetTrue")], subs=[leaf], arg_required_else_help=True, subcommand_required=True),
+        [[], ["-f"], ["leaf"], ["leaf", "v"], ["nope"]])
+    add("ignore-errors", cmd("prog", [arg("f", "f", action="SetTrue"), arg("o", "o", defaults=["d"])], subs=[leaf], ignore_errors=True),
+        [["--bad"], ["-f", "leaf", "--bad"], ["--help"], ["-o"], ["leaf", "x", "y"]])
+    add("external", cmd("prog", [arg("f", "f", action="SetTrue")], subs=[cmd("known")], allow_external_subcommands=True),
+        [["ext", "a", "b"], ["known"], ["-f", "ext"], ["--nope"]])
+    return D
+
+
+FAMILIES["hist"] = f_hist
